@@ -4,6 +4,7 @@ import (
 	"context"
 	"crypto/sha256"
 	"fmt"
+	"strings"
 	"time"
 
 	"github.com/mr-tron/base58"
@@ -181,6 +182,20 @@ func mutations() []mutation {
 			v.Transaction.IssuerAddress = a[:len(a)-1]
 			return true
 		}},
+		{"move-bytes:subject->receiver-address", func(w *World, r *prng, v, o *pb.Vertex) bool {
+			// the signed message is subject|data|issuer|receiver without framing: when the subject itself mentions
+			// the issuer's address (as a payment reference would), everything behind that mention can be handed to
+			// the receiver field - nobody's key is needed, and the spice goes to a string nobody owns
+			t := v.Transaction
+			i := strings.Index(t.Subject, t.IssuerAddress)
+			if i <= 0 || len(t.Data) != 0 {
+				return false
+			}
+			rest := t.Subject[i+len(t.IssuerAddress):]
+			t.ReceiverAddress = rest + t.IssuerAddress + t.ReceiverAddress
+			t.Subject = t.Subject[:i]
+			return true
+		}},
 		{"swap:transaction", func(w *World, r *prng, v, o *pb.Vertex) bool {
 			if o == nil {
 				return false
@@ -274,6 +289,9 @@ func (w *World) freshValid(n *Node, r *prng, contract bool) (*accountant.Vertex,
 	amount := spice.Melange{SupplementaryCurrency: uint64(1 + r.Intn(100000))}
 	var data []byte
 	subj := "payment order"
+	if !contract && r.Chance(0.3) {
+		subj = "payment from " + iss.Address() + fmt.Sprintf(", order %d", r.Intn(1000)) // a reference that names the payer
+	}
 	if contract {
 		data = []byte(fmt.Sprintf("contract-%d-body", r.Intn(1000)))
 		subj = "agreement text"
